@@ -43,7 +43,7 @@ import (
 
 type c34Call struct {
 	Kind    int `json:"k"`     // 0 Join, 1 Leave, 2 Shutdown
-	Trigger int `json:"t"`     // 0 start barrier, 1 State()>=leaving seen, 2 >=left seen, 3 shutdown seen, 4 after call After returned, 5 at the AtRelease-th release of a serf mutex
+	Trigger int `json:"t"`     // 0 start barrier, 1 State()>=leaving seen, 2 >=left seen, 3 shutdown seen, 4 after call After returned, 5 at the AtRelease-th release of a serf mutex, 6 DelayUs after call After BEGAN (whether or not it has returned)
 	After   int `json:"after"` // trigger 4: index of an earlier call (mod own index)
 	DelayUs int `json:"delay"` // extra delay after the trigger, microseconds
 	// trigger 5: the call is released when, counted from the start of the
@@ -63,6 +63,10 @@ type c34Case struct {
 	PropagateMs int       `json:"propagate_ms"`
 	Calls       []c34Call `json:"calls"`
 	Snap        bool      `json:"snap,omitempty"` // the node keeps a snapshot file
+	// HoldMs > 0: the first dial of the program is held this long before it
+	// fails (a peer that does not answer): the Join that made it stays inside
+	// memberlist for that time
+	HoldMs int `json:"hold_ms,omitempty"`
 }
 
 func genC34(t *rapid.T) c34Case {
@@ -117,6 +121,26 @@ func genC34(t *rapid.T) c34Case {
 			}
 		}
 	}
+	// one program in six: a Join that hangs on a peer that does not answer, a
+	// Leave (or Shutdown) called 2 ms after that Join began, and a second Join
+	// called 20 ms after the Leave began - while the first Join is still inside
+	// memberlist. The second Join was called after a leave had begun.
+	if rapid.IntRange(0, 5).Draw(t, "join-hangs") == 0 {
+		c.HoldMs = rapid.SampledFrom([]int{60, 90}).Draw(t, "jh.hold")
+		c.Calls[0] = c34Call{Kind: 0}
+		c.Calls[1] = c34Call{Kind: rapid.SampledFrom([]int{1, 1, 1, 2}).Draw(t, "jh.second"), Trigger: 6, After: 0, DelayUs: 2000}
+		late := c34Call{Kind: 0, Trigger: 6, After: 1, DelayUs: 20000, IgnoreOld: rapid.Bool().Draw(t, "jh.ignore")}
+		if len(c.Calls) > 2 {
+			c.Calls[2] = late
+		} else {
+			c.Calls = append(c.Calls, late)
+		}
+		for i := 3; i < len(c.Calls); i++ {
+			if c.Calls[i].Trigger == 5 {
+				c.Calls[i].Trigger = 0
+			}
+		}
+	}
 	return c
 }
 
@@ -126,6 +150,7 @@ type c34Res struct {
 	begin, end int64
 	seen       int64 // stamp taken after post was observed
 	pre, post  serf.SerfState
+	beganAt    time.Time // wall clock right before the call
 	err        error
 	n          int
 	panicked   any
@@ -134,6 +159,17 @@ type c34Res struct {
 func bodyC34(c c34Case, x *vkit.Ctx) {
 	nw := simnet.New(1)
 	nw.Deliver = c.Peer == 2
+	var heldDials atomic.Int32
+	holdArmed := atomic.Bool{}
+	if c.HoldMs > 0 {
+		hold := time.Duration(min(c.HoldMs, 200)) * time.Millisecond
+		nw.HoldDial = func(d simnet.Dial) error {
+			if holdArmed.Load() && heldDials.Add(1) == 1 {
+				time.Sleep(hold)
+			}
+			return nil
+		}
+	}
 	bt := time.Duration(min(max(c.BroadcastMs, 1), 200)) * time.Millisecond
 	pd := time.Duration(min(max(c.PropagateMs, 0), 200)) * time.Millisecond
 	snapDir := ""
@@ -220,6 +256,10 @@ func bodyC34(c c34Case, x *vkit.Ctx) {
 		done[i] = make(chan struct{})
 	}
 	giveUp := make(chan struct{}) // closed when waiting calls should stop waiting for their trigger
+	began := make([]chan struct{}, len(c.Calls)) // closed right before call i is made
+	for i := range began {
+		began[i] = make(chan struct{})
+	}
 	// trigger 5: channels closed by the lock hook at the K-th release
 	atRel := map[int64][]chan struct{}{}
 	atCh := make([]chan struct{}, len(c.Calls))
@@ -293,6 +333,14 @@ func bodyC34(c c34Case, x *vkit.Ctx) {
 						return
 					}
 				}
+			case 6:
+				if i > 0 {
+					select {
+					case <-began[call.After%i]:
+					case <-giveUp:
+						return
+					}
+				}
 			case 5:
 				if atCh[i] != nil { // without the locks overlay: like the start barrier
 					select {
@@ -308,7 +356,9 @@ func bodyC34(c c34Case, x *vkit.Ctx) {
 			}
 			r.pre = observe()
 			r.started = true
+			r.beganAt = time.Now()
 			r.begin = stamp.Add(1)
+			close(began[i])
 			func() {
 				defer func() { r.panicked = recover() }() // the call runs in this goroutine: a panic here is an observation, not a crash
 				switch call.Kind {
@@ -347,6 +397,7 @@ func bodyC34(c c34Case, x *vkit.Ctx) {
 		lockYield((len(c.Calls) + c.Peer) % 3)
 	}
 	defer setLockHook(nil)
+	holdArmed.Store(true)
 	close(start)
 	// calls whose trigger never comes true are released once nothing else is running
 	allDone := make(chan struct{})
@@ -488,6 +539,7 @@ func bodyC34(c c34Case, x *vkit.Ctx) {
 			return
 		}
 	}
+	programGap := mon.MaxGap()
 	var firstShutdownBegin int64 = 1 << 62
 	for i, call := range c.Calls {
 		if call.Kind%3 == 2 && res[i].started && res[i].begin < firstShutdownBegin {
@@ -519,6 +571,29 @@ func bodyC34(c c34Case, x *vkit.Ctx) {
 			}
 			if call.IgnoreOld {
 				x.Label("join-ignore-old")
+			}
+			// a Join called well after a Leave or Shutdown call had begun (trigger 6
+			// with a margin of 15 ms or more, measured on the wall clock, and no
+			// scheduler stall in the whole program): the first thing either of them
+			// does is claim the state, so by then the leave or shutdown has begun
+			if call.Trigger == 6 && i > 0 {
+				j := call.After % i
+				if p := res[j]; c.Calls[j].Kind%3 != 0 && p.started && r.beganAt.Sub(p.beganAt) >= 15*time.Millisecond {
+					if programGap > 10*time.Millisecond {
+						x.Label("late-join-not-judged:scheduler-stall")
+					} else {
+						x.Label("join-called-15ms-after-leave-or-shutdown-began")
+						if r.err == nil {
+							x.Violationf("join-accepted-after-leave-or-shutdown-began", "call %d: Join was called %v after call %d (%s) had begun and returned no error (n=%d, state read before the call: %v); calls: %s",
+								i, r.beganAt.Sub(p.beganAt).Round(time.Millisecond), j, []string{"Join", "Leave", "Shutdown"}[c.Calls[j].Kind%3], r.n, r.pre, describe())
+							return
+						}
+						if dialed {
+							x.Violationf("join-contacts-peer-after-leave-or-shutdown", "call %d: Join was called %v after call %d had begun and still dialed %s (err=%v); calls: %s", i, r.beganAt.Sub(p.beganAt).Round(time.Millisecond), j, joinTarget(i), r.err, describe())
+							return
+						}
+					}
+				}
 			}
 			if r.pre != serf.SerfAlive {
 				x.Label("join-after-leave-or-shutdown")
@@ -577,7 +652,7 @@ func bodyC34(c c34Case, x *vkit.Ctx) {
 			}
 		}
 	}
-	if g := mon.MaxGap(); g > 50*time.Millisecond {
+	if g := max(programGap, mon.MaxGap()); g > 50*time.Millisecond {
 		x.Label("starved-run") // no verdict above depends on wall-clock time; informational only
 	}
 	x.Labelf("final=%v", obsLog[len(obsLog)-1])
